@@ -14,7 +14,7 @@ def main():
         rng = random.Random('%s/%d/%d' % (family, seed, i))
         g = getattr(gen, 'gen_' + family)
         opts, program = g(rng, dict(knobs, _i=i))
-        r = prog.run_program(opts, program, wall=10)
+        r = prog.run_program(opts, program, wall=45)      # (wall-clock watchdog against spinning code only: generous, the machine may be loaded)
         r.update(tid=i, family=family, opts=opts, prog=program)
         res.append(r)
         if sum(1 for x in res if x['status'] != 'ok') >= 3:
